@@ -626,7 +626,11 @@ func TestC08AfterRefusals(t *testing.T) {
 						dd := d
 						hr = mk(fmt.Sprintf("_refused-%d", i), &dd, own)
 					}
-					obs.Do(w.Handler, hr)
+					if _, hang := doTerminating(w, hr); hang != "" {
+						key, what, _ := strings.Cut(hang, "\x00")
+						fail(ev.V("C08/"+key, "refused request %d of 12 (%s, %s): %s", i+1, d.Name, binding, what), map[string]any{"refused_kind": d, "binding": binding})
+						return
+					}
 				}
 				refused, _ := createCalls(w)
 				w.Store.ResetLog()
